@@ -282,6 +282,22 @@ pub fn run_txn(data: &[u8], ctx: &mut Ctx) -> CaseResult {
             if ks.eff_sign() >= kc.eff_min() {
                 vensure!(matches!(r, Err(domain::tsig::ValidationError::ServerBadTime { .. })), "client-answer:rfc-signed-badtime-response-rejected", "got {:?} for {}", r, hex(&ref_em));
             }
+            // The complaint is only to be believed when it is authentic (§5.2.3: it is
+            // signed so that it can be): the server's own error response with one bit
+            // of the MAC, of the server time or of the header changed in transit is a
+            // message with a wrong MAC like any other.
+            if ks.eff_sign() >= kc.eff_min() {
+                let lay = sp.rr.layout();
+                let spans = [(sp.start + lay.mac.0, sp.start + lay.mac.1), (sp.start + lay.other.0, sp.start + lay.other.1), (2, 4), (sp.start + lay.time.0, sp.start + lay.time.1)];
+                let (lo, hi) = spans[pick(u, 4)];
+                let mut alt = em.clone();
+                alt[lo + pick(u, hi - lo)] ^= 1u8 << pick(u, 8);
+                let mut m = Message::from_octets(alt.clone()).unwrap();
+                let got = o_client(&client.answer(&mut m, t48(t_cli)));
+                vensure!(got == O::BadSig, format!("client-answer:badtime-response-altered-in-transit-{:?}-expected-BadSig", got), "server's response {}
+altered           {}", hex(&em), hex(&alt));
+                ctx.class("badtime-response-altered-in-transit-rejected");
+            }
             return Ok(());
         }
         _ => {}
